@@ -619,7 +619,24 @@ def extra_evidence(ctx: Ctx, cases: List[Case], verdicts) -> Dict[str, Any]:
     for c in cases:
         seen.update(c.tags)
     missing = [t for t in REQUIRED_TAGS if t not in seen]
-    return {"quantifier_classes_required": len(REQUIRED_TAGS), "quantifier_classes_missing": missing}
+    return {"quantifier_classes_required": len(REQUIRED_TAGS), "quantifier_classes_missing": missing,
+            "zeno_probe": zeno_probe(ctx)}
+
+
+def zeno_probe(ctx: Ctx) -> Dict[str, Any]:
+    """The excluded point of theorem yield_trace (hypothesis BudgetOk), run against the REAL code and not judged:
+    a publisher that grants a timeout <= RESUBSCRIBE_TOLERANCE and answers without delay makes the renewal loop
+    start round after round without virtual time advancing (it still yields to the event loop at every request:
+    the per-iteration step counter does not trip, the no-time-advance counter does).  Granted 61 s (the
+    property's lower bound) does not."""
+    out = {}
+    for tmo in (60, 61):
+        rec = {"profile": "dmr", "services": ["RC"], "script": [], "default": ["ok", tmo, 0], "ops": [["sub", 1], ["wait", 10000]]}
+        c = run_recipe(ctx, rec, f"zeno{tmo}")
+        out[f"granted_{tmo}s_latency_0"] = {
+            "spin": [t for t in c.tags if t.startswith("spin:")],
+            "renewal_requests": sum(1 for ln in c.lines if ln.startswith("o req") and " R " in ln)}
+    return out
 
 
 def signature(case: Case, verdict) -> str:
